@@ -19,7 +19,7 @@ from ..core import sym, tree_coq, tree_leaves, tree_fill, tshow, tname, SymErr, 
 
 CFGS = ['sse2', 'scalar', 'coresimd', 'sse2+fma', 'libm']
 FVECS = {'Vec2': ('f32', 2), 'Vec3': ('f32', 3), 'Vec3A': ('f32', 3), 'Vec4': ('f32', 4), 'DVec2': ('f64', 2), 'DVec3': ('f64', 3), 'DVec4': ('f64', 4)}
-UN = {'abs': 'FAbs', 'signum': 'FSignum', 'floor': 'FFloor', 'ceil': 'FCeil', 'trunc': 'FTrunc', 'round': 'FRound', 'recip': 'FRecipStd', 'exp': 'FExp'}
+UN = {'abs': 'FAbs', 'signum': 'FSignum', 'floor': 'FFloor', 'ceil': 'FCeil', 'trunc': 'FTrunc', 'round': 'FRound', 'recip': 'RECIP', 'exp': 'FExp'}
 BIN = {'Add': 'FAdd', 'Sub': 'FSub', 'Mul': 'FMul', 'Div': 'FDiv', 'Rem': 'FRem'}
 BINM = {'copysign': 'FCopysign', 'div_euclid': 'FDivEuclid', 'rem_euclid': 'FRemEuclid'}
 SSE_DIRECT = {'Add', 'Sub', 'Mul', 'Div', 'min', 'max'}     # single lane-wise SSE2 instructions (min/max = the documented compare-select)
@@ -67,11 +67,13 @@ def lanewise(cfg, structs, f, n, k, d, opname, prim, unary=False, scalar_left=Fa
     args = '[%s]' % '; '.join(tree_coq(t) for t in trees)
     run = 'run O tbl 200 %d%%positive %s' % (f['fid'], args); sh = ty_shape(structs, ret)
     lhs = ('rerase O (%s) (%s)' % (sh, run)) if core.shape_has_hidden(sh) else run
-    direct = (not simd) or (opname in SSE_DIRECT)
+    if cfg == 'libm' and opname in ('div_euclid', 'rem_euclid', 'signum'): return None     # libm builds spell these out; covered by the correspondence run only
+    direct = (not simd) or (opname in SSE_DIRECT) or (cfg.startswith('coresimd') and (opname in UN or opname in BIN or opname in BINM or opname in ('neg', 'min', 'max', 'fract', 'fract_gl', 'clamp', 'powf')))
     if opname == 'mul_add' and simd: direct = False
     if direct:
         def lane(i):
             x = [a[i] for a in A]
+            if prim == 'RECIP': return op2(k, 'FDiv', '(%s_of_bits O %d)' % (k, 1065353216 if k == 'f32' else 4607182418800017408), x[0])
             if prim and (unary): return op1(k, prim, x[0])
             if opname == 'powf': return op2(k, 'FPowf', x[0], x[1])
             if prim: return op2(k, prim, x[0], x[1])
@@ -83,7 +85,7 @@ def lanewise(cfg, structs, f, n, k, d, opname, prim, unary=False, scalar_left=Fa
             if opname == 'fract_gl': return op2(k, 'FSub', x[0], op1(k, 'FFloor', x[0]))
             if opname == 'mul_add': return '(%s_3 O FFma %s %s %s)' % (k, x[0], x[1], x[2])
             raise SymErr('no lane rule ' + opname)
-        if simd and opname in ('min', 'max'):
+        if simd and opname in ('min', 'max') and not cfg.startswith('coresimd'):
             prim2 = 'FMinSse' if opname == 'min' else 'FMaxSse'
             lanes = [op2(k, prim2, A[0][i], A[1][i]) for i in range(d)]
         else: lanes = [lane(i) for i in range(d)]
@@ -148,7 +150,7 @@ HDR = core.HDR.replace('Import Base Spec.', 'Import Base Spec Sem.')
 
 def run(tier, seed):
     t0 = time.time(); idx, info = flow.prepare()
-    files, notes, cover = f1.build(idx, CFGS, 'flt', spec, per_file=50)
+    files, notes, cover = f1.build(idx, CFGS, 'flt', spec, per_file=50, pid='C01')
     per_fn = 8 if tier == 'quick' else 200
     return f1.run('C01', tier, seed, idx, info, t0, files, notes, cover, HDR, per_fn,
         'one lemma per element-wise operation of the 7 float vector types in the sse2, scalar-math, core-simd, sse2+fma and libm tables (direct = lane-wise primitive; uniform = every lane is the same function of its own operands; predicate = boolean/fold of per-lane primitives), for all Ops; correspondence: %d random calls per operation with special-value lattice lanes (ties, 2^23, 2^31, subnormals, NaN payloads, infinities)' % per_fn,
